@@ -23,6 +23,7 @@ where
     K: Key + Debug + Ord + serde::Serialize + serde::de::DeserializeOwned + Default,
 {
     let mut prev: Option<(usize, K)> = None;
+    let mut anchors: Vec<(usize, K)> = Vec::new();
     for &i in idxs {
         let got = std::panic::catch_unwind(|| K::try_from_usize(i));
         let line = match &got {
@@ -99,6 +100,21 @@ where
                     }
                 }
                 prev = Some((i, *k));
+                // ... and against keys far below: index 0 and the last key seen before each power of two
+                // (an order computed from a wrapped difference is right for neighbours and wrong across half the range)
+                for (ai, ak) in anchors.iter() {
+                    let ok = ak < k && ak != k && ak.cmp(k) == std::cmp::Ordering::Less && k.cmp(ak) == std::cmp::Ordering::Greater
+                        && ak.partial_cmp(k) == Some(std::cmp::Ordering::Less) && std::cmp::max(*ak, *k) == *k;
+                    if !ok {
+                        out.oracle.push(format!("{name}: keys of {ai} and {i} not ordered like their indices"));
+                    }
+                    out.n_oracle_checks += 1;
+                }
+                if anchors.is_empty() || (i + 1).is_power_of_two() || i.is_power_of_two() || (i >= 3 && (i - 1).is_power_of_two()) {
+                    if anchors.len() < 200 {
+                        anchors.push((i, *k));
+                    }
+                }
             }
             Ok(None) => {
                 if expect_some {
@@ -200,7 +216,8 @@ fn main() {
             let k = Spur::try_from_usize(i);
             let ok = match k {
                 Some(k) => {
-                    let good = i < u32::MAX as usize && k.into_usize() == i && k.into_inner().get() as usize == i + 1 && prev.map(|p| p < k).unwrap_or(true);
+                    let far = i == 0 || (Spur::try_from_usize(0).map(|z| z < k && k > z).unwrap_or(false) && Spur::try_from_usize(i / 2).map(|h| i / 2 == i || (h < k && k > h)).unwrap_or(false));
+                    let good = i < u32::MAX as usize && k.into_usize() == i && k.into_inner().get() as usize == i + 1 && prev.map(|p| p < k).unwrap_or(true) && far;
                     prev = Some(k);
                     good
                 }
